@@ -4,6 +4,7 @@ import (
 	"bufio"
 	"context"
 	"encoding/json"
+	"fmt"
 	"os"
 	"sort"
 	"strings"
@@ -45,6 +46,8 @@ type crashObs struct {
 	Images  []image       `json:"images"`
 	// for every step: the write count after it (the image a query at that point must equal)
 	StepW []int `json:"stepW"`
+	// CreateNew returned but the datastore has no record of the channel
+	CreateErr string `json:"createErr"`
 }
 
 // TestCrash: run each history on a real channel engine over a recording datastore, then reopen the
@@ -74,11 +77,20 @@ func TestCrash(t *testing.T) {
 		for _, cd := range c.Chans {
 			chid, err := n.Seed(cd.Ident, cd.Rec)
 			if err != nil {
-				t.Fatalf("case %s: seed: %v", c.Case, err)
+				// CreateNew returned, yet the datastore holds no record of the channel: not a harness problem but what C06 is about
+				co.CreateErr = fmt.Sprintf("channel %s was created (CreateNew returned) but is not in the datastore: %v", cd.Name, err)
+				break
 			}
 			ids[cd.Name] = chid
 			co.Created = append(co.Created, chid.String())
 			co.Hist = append(co.Hist, chanHist{Chid: chid.String(), Seed: cd.Rec, Anns: []kit.View{}, Evs: []string{}})
+		}
+		if co.CreateErr != "" {
+			n.Stop()
+			if err := enc.Encode(co); err != nil {
+				t.Fatal(err)
+			}
+			continue
 		}
 		sort.Strings(co.Created)
 		base := ds.Snapshot()
